@@ -475,6 +475,22 @@ func (m *Machine) Call(name string, xRets int, args ...goatlang.Value) Outcome {
 	return o
 }
 
+// Func invokes a function value.
+func (m *Machine) Func(f goatlang.Value, xRets int, args ...goatlang.Value) Outcome {
+	var o Outcome
+	if m.Obs != nil {
+		m.Obs.Reset()
+	}
+	m.Out.Reset()
+	var rets []goatlang.Value
+	var err error
+	if p := Guard(func() { rets, err = m.VM.Func(f, xRets, args...) }); p != "" {
+		o.Panic = p
+	}
+	m.finish(&o, rets, err)
+	return o
+}
+
 // MapFS builds an in-memory tree.
 func MapFS(files map[string]string) fstest.MapFS {
 	sys := fstest.MapFS{}
